@@ -283,7 +283,7 @@ theorem dec_enc (ty : Ty) (hs : Sound ty = true) :  v i, enc ty v = some i 
     cases t <;> simp at hs
     next n =>
       cases v <;> simp [enc, nilIsList] at h
-      路 subst h; simp [dec]
+      路 subst h; simp [dec, nilIsList]
       路 next v =>
         cases v <;> simp [enc] at h
         next b =>
@@ -399,7 +399,20 @@ theorem enc_dec (ty : Ty) (hc : Canonical ty = true) :  i v, dec ty i = .ok v
     have : dec t i = .ok v := by simpa [dec] using h
     have := ih hc i v this
     cases v <;> simpa [enc] using this
-  | nilptr t _ => simp [Canonical] at hc
+  | nilptr t ih =>
+    intro i v h
+    simp only [Canonical, Bool.and_eq_true] at hc
+    simp only [dec] at h
+    split at h
+    路 split at h
+      路 simp at h
+      路 next hnl => simp at h; subst h; simp [enc, hnl]
+    路 split at h
+      路 next hnl => simp at h; subst h; simp [enc, hnl]
+      路 simp at h
+    路 split at h
+      路 next v0 hv0 => simp at h; subst h; simp [enc, ih hc.1 i v0 hv0]
+      路 simp at h
   | custom k w ih =>
     intro i v h
     simp only [Canonical, Bool.and_eq_true] at hc
